@@ -28,6 +28,22 @@ Next == /\ depth < MaxDepth /\ depth' = depth + 1
 Spec == Init /\ [][Next]_vars
 View == <<m, depth>>
 
+\* C11: a split passes the face-type label of each parent triangle on to the two triangles it is divided into,
+\* and touches no other label
+LabelsInherited(m0, m1, x) ==
+    LET a == x[1]  b == x[2]  f1 == x[3]  f2 == x[4]
+        e == CHOOSE n \in m1.used \ m0.used : TRUE
+        c == Opp(m0.tri[f1], a, b)
+        d == Opp(m0.tri[f2], a, b)
+        star == {f \in Live(m1) : e \in NodesOf(m1.tri[f])}
+    IN /\ Cardinality(m1.used \ m0.used) = 1 /\ Cardinality(star) = 4
+       /\ \A f \in star : /\ c \in NodesOf(m1.tri[f]) => m1.ftype[f] = m0.ftype[f1]
+                          /\ d \in NodesOf(m1.tri[f]) => m1.ftype[f] = m0.ftype[f2]
+       /\ \A f \in Live(m1) \ star : f \in Live(m0) /\ m1.ftype[f] = m0.ftype[f] /\ m1.tri[f] = m0.tri[f]
+SplitKeepsLabels == [][lastOp'[1] = "split" => LabelsInherited(m, m', lastOp'[2])]_vars
+\* no operation but the three remeshing operations changes the set of live nodes or triangles
+OnlyRemeshChanges == [][lastOp'[1] \in {"refresh", "merge_blocked"} => (m'.tri = m.tri /\ m'.used = m.used /\ m'.ftype = m.ftype)]_vars
+
 Inv_NoRepeat    == NoRepeat(m)
 Inv_LiveNodes   == LiveNodes(m)
 Inv_Closed      == Closed(m)
